@@ -101,6 +101,19 @@ def marshal(
         try:
             # send next byte into processor
             event = processor.send(byte)
+        except StopIteration as error:
+            # processor is done without yielding another event (e.g. after consuming padding bytes)
+            size, obj = error.value
+            bytes_remaining = bytes(buffer_iter)
+            if not bytes_remaining:
+                return obj
+            error = InputStreamSuperfluousBytesError(
+                bytes_remaining=bytes_remaining, command_code=command_code
+            )
+            if abort_on_error:
+                raise error
+            yield WarningEvent(error=error)
+            return obj
         except ConstraintViolatedError as error:
             # TODO code is redundant
             error.set_bytes_remaining(buffer_iter)
